@@ -25,7 +25,12 @@ def _call_periodic(loop: asyncio.BaseEventLoop, name, interval, callback):
     start = loop.time()
 
     def run(handle, fn=callback):
-        r = fn()
+        try:
+            r = fn()
+        except BaseException:
+            # the timer dies with its callback: drop the spent loop handle so that .timerc reports 0
+            handle.delegate = None
+            raise
         if handle.delegate is None:
             # cancelled from inside the callback: .timerc reported success, so do not re-arm
             return
